@@ -57,15 +57,21 @@ def evaluate(root, diff, props):
 
 def main():
     root = sys.argv[1]
-    for spec in sys.argv[2:]:
+    for spec in [a for a in sys.argv[2:] if not a.startswith('--')]:
         ID, m = spec.split(":")
         wt = "/tmp/wt/c" + ID[1:]
+        outdir = "out2" if m in ("m3", "m4") else "out"
         print("== %s %s" % (ID, m), flush=True)
-        ok, line = confirm(wt, ID, m)
+        prev = os.path.join(VERIF, "seeded", "%s-%s" % (ID, m), "meta.json")
+        if os.path.exists(prev) and "--reconfirm" not in sys.argv:
+            # confirmed in an earlier run: the scratch worktree may be in use by another agent now
+            ok, line = True, json.load(open(prev))["confirmation"]["result"]
+        else:
+            ok, line = confirm(wt, ID, m)
         print("   confirm:", line, "->", "OK" if ok else "NOT CONFIRMED", flush=True)
         meta_agent = {}
         try:
-            ma = json.load(open(os.path.join(wt, "out", "meta.json")))
+            ma = json.load(open(os.path.join(wt, outdir, "meta.json")))
             meta_agent = [x for x in ma.get("mutants", []) if x.get("name") == m][0]
         except Exception:
             pass
@@ -75,9 +81,11 @@ def main():
             open(os.path.join(VERIF, "work", "unconfirmed_%s_%s.txt" % (ID, m)), "w").write(line)
             continue
         os.makedirs(out, exist_ok=True)
-        shutil.copy(os.path.join(wt, "out", m + ".diff"), os.path.join(out, "patch.diff"))
-        demo = os.path.join(wt, "out", "demo_%s_%s.rs" % (ID, m))
-        shutil.copy(demo, os.path.join(out, os.path.basename(demo)))
+        if not os.path.exists(prev):
+            shutil.copy(os.path.join(wt, outdir, m + ".diff"), os.path.join(out, "patch.diff"))
+        demo = os.path.join(wt, outdir, "demo_%s_%s.rs" % (ID, m))
+        if os.path.exists(demo) and not os.path.exists(prev):
+            shutil.copy(demo, os.path.join(out, os.path.basename(demo)))
         results = evaluate(root, os.path.join(out, "patch.diff"), ALL)
         caught = [p for p, r in results.items() if r["exit"] == 1]
         # keep the shrunk failures as replay files (regression tier): the target property's, else the first
